@@ -15,6 +15,7 @@ verus! {
 //@path std::time::Duration::from_millis => duration_from_millis
 //@path std::time::Duration::from_micros => duration_from_micros
 //@path std::sync::atomic::Ordering => atomic_shim::Ordering
+//@path Relaxed => atomic_shim::Ordering::Relaxed
 //@path Journal::recover => journal_recover
 //@world fs_read try_exists file.try_lock file.try_lock_shared *.open Self::check_version LockedFileGuard::try_acquire journal_recover Self::recover Self::create_new File::create_new
 
@@ -252,6 +253,32 @@ pub struct DatabaseInner { pub supervisor: SupervisorD, pub config: ConfigD, pub
         final(w).flush_tasks_cleared && final(w).keyspaces_cleared && final(w).journal_queue_cleared, // [C17:drop-releases-every-back-reference-to-the-database]
 //@loop 0
             invariant w.stop_sent,
+//@end
+
+// ---- the worker thread's loop body (closure in WorkerPool::start, src/worker_pool.rs): the assumption behind Drop for DatabaseInner's
+// wait loop -- "every worker decrements the live-thread counter as its last action" -- checked on the real statement: one
+// iteration of `loop { match worker_tick(..) { .. } }`; its `return`s are the thread's exits
+pub struct WorkerStateD { pub dummy: u8 }
+#[verifier::external_body]
+pub fn worker_tick(ws: &WorkerStateD, Tracked(w): Tracked<&mut World>) -> (r: FjResult<bool>) ensures *final(w) == *old(w) { unimplemented!() }
+pub struct PoisonDart { pub dummy: u8 }
+impl PoisonDart { #[verifier::external_body] pub fn poison(&self) { unimplemented!() } }
+impl ThreadCounter {
+    // AtomicUsize::fetch_sub(1) on active_thread_counter
+    #[verifier::external_body]
+    pub fn fetch_sub(&self, n: usize, o: atomic_shim::Ordering, Tracked(w): Tracked<&mut World>) -> (r: usize)
+        requires old(w).threads >= n,
+        ensures *final(w) == (World { threads: (old(w).threads - n) as nat, ..*old(w) }) { unimplemented!() }
+}
+//@extract src/worker_pool.rs :: WorkerPool :: start as=worker_loop_iteration world props=C17
+//@anchor match worker_tick(&worker_state)
+//@world worker_tick thread_counter.fetch_sub
+//@sig fn worker_loop_iteration(worker_state: WorkerStateD, thread_counter: ThreadCounter, poison_dart: PoisonDart, i: usize) -> Result<(), Error>
+//@contract
+    requires old(w).threads >= 1,   // this thread is counted (WorkerPool::start adds the pool size before spawning)
+    ensures
+        // whichever way a worker thread ends -- told to close, or stopped by an error -- it is no longer counted as alive
+        final(w).threads == old(w).threads - 1, // [C17:a-worker-leaves-only-after-decrementing-the-live-thread-counter]
 //@end
 
 //@canary
